@@ -693,7 +693,8 @@ class Engine:
                     return T('range', ops[0], T('const', None))
                 return T('adt', kind['path'] + '::' + kind['variant'], tuple(zip(kind['fields'], ops)))
             if kind['a'] == 'closure':
-                return T('closure', kind['path'], ops)
+                # the creation site distinguishes instantiations of one closure body reached through different call chains
+                return T('closure', kind['path'], ops, ((body.key, bb),))
             return T(kind['a'], *ops)
         if k == 'repeat':
             return T('repeatv', self.operand(body, bb, idx, rv['op'], depth), rv['n'])
@@ -826,7 +827,7 @@ class Engine:
                 env[('param', cb.key, i + 2)] = a
             for j, c in enumerate(f[2]):
                 env[('upvar', cb.key, j)] = c
-            return self.subst(rt, env, ())
+            return self.subst(rt, env, tuple(f[3]) if len(f.args) > 2 else ())
         if f.tag == 'phi':
             return mk_phi([self.apply(x, args) for x in f.args])
         if f.tag == 'fnitem':
@@ -937,6 +938,8 @@ def _subst(eng, t, env, site, memo):
         r = t
     elif tag == 'call':
         r = T('call', t[1], _subst(eng, t[2], env, site, memo), site + t[3])
+    elif tag == 'closure' and len(t.args) > 2:
+        r = T('closure', t[1], _subst(eng, t[2], env, site, memo), site + tuple(t[3]))
     elif tag == 'ev':
         r = T('ev', t[1], t[2], _subst(eng, t[3], env, site, memo), site + t[4])
     elif tag == 'lv':
